@@ -326,6 +326,11 @@ func (vfs *MemFS) Link(oldname, newname string) error {
 	}
 
 	nParent, _, pi, nerr := vfs.searchNode(newname, slmLstat)
+	if vfs.isNotExist(nerr) && !pi.IsLast() {
+		// the parent directory of newname does not exist.
+		return &os.LinkError{Op: op, Old: oldname, New: newname, Err: nerr}
+	}
+
 	if !vfs.isNotExist(nerr) {
 		if vfs.OSType() == avfs.OsWindows {
 			nerr = avfs.ErrWinAlreadyExists
@@ -773,7 +778,8 @@ func (vfs *MemFS) Rename(oldpath, newpath string) error {
 	}
 
 	nParent, nChild, nPI, nErr := vfs.searchNode(newpath, slmLstat)
-	if nErr != vfs.err.FileExists && !vfs.isNotExist(nErr) {
+	if nErr != vfs.err.FileExists && !vfs.isNotExist(nErr) || vfs.isNotExist(nErr) && !nPI.IsLast() {
+		// newpath can't be reached or its parent directory does not exist.
 		return &os.LinkError{Op: op, Old: oldpath, New: newpath, Err: nErr}
 	}
 
@@ -910,7 +916,8 @@ func (vfs *MemFS) Symlink(oldname, newname string) error {
 	const op = "symlink"
 
 	parent, _, pi, nerr := vfs.searchNode(newname, slmLstat)
-	if !vfs.isNotExist(nerr) {
+	if !vfs.isNotExist(nerr) || !pi.IsLast() {
+		// newname exists or its parent directory does not exist.
 		return &os.LinkError{Op: op, Old: oldname, New: newname, Err: nerr}
 	}
 
